@@ -42,9 +42,9 @@ def run(chk):
                 'machine strictly and tolerantly and checks TolerantExtends and OnlyClosersInserted; every experiment is '
                 'replayed on the real parser in both modes; corpus, truncations / single-closer deletions / mutations of '
                 'documents and random strings run through the real parser are validated by TLC. A case is a source string.')
-    sc = [(S.SC + S.SC_EXTRA, 3 if quick else 4), (S.ST, 2 if quick else 3)]
+    sc = [(S.SC + S.SC_EXTRA, 3), (S.ST, 2)]
     for k in ('env', 'args', 'math', 'verb', 'item', 'sig', 'names'):
-        sc.append((S.SUB[k], 3 if quick else 4))
+        sc.append((S.SUB[k], S.words_bound(S.SUB[k], quick)))
     docs = S.corpus_sources()
     extra = list(docs) + S.regression_inputs(('C06', 'C07', 'C08'))
     extra += S.mutations(rng, docs, 3 if quick else 40, S.SC)
